@@ -41,7 +41,7 @@ ALPHABET = [
 
 
 def budget(tier):
-    return 4000 if tier == "quick" else 5 * G.short_history_count(len(ALPHABET), 3) + 150_000
+    return 12000 if tier == "quick" else 5 * G.short_history_count(len(ALPHABET), 3) + 150_000
 
 
 def wall(tier):
@@ -55,7 +55,7 @@ def gen(seed: int, i: int, tier: str) -> dict:
         proto = G.PROTOS[i // nshort]
         hist = G.short_history(i % nshort, ALPHABET, 3)
         return {"cfg": {"pin": proto}, "kind": "short", "ops": [["line", h.format(v=proto)] for h in hist]}
-    if tier == "quick" and i < 1500:
+    if tier == "quick" and i < 4000:
         proto = rng.choice(G.PROTOS)
         hist = G.short_history(rng.randrange(nshort), ALPHABET, 3)
         return {"cfg": {"pin": proto}, "kind": "short", "ops": [["line", h.format(v=proto)] for h in hist]}
